@@ -40,7 +40,7 @@ func c02Scenarios(tier string) []*explore.Scenario {
 }
 
 func c02Body(x *explore.Ctx, cfg WConfig, prog int, tier string) {
-	x.Check(websocket.VerifMaskRandIsCryptoRand(), "C02:maskrand-not-crypto", "the package's mask key source is not crypto/rand.Reader")
+	x.Check(maskRandWasCrypto, "C02:maskrand-not-crypto", "the package's mask key source is not crypto/rand.Reader")
 	mask := &MaskRec{}
 	restore := websocket.VerifSetMaskRand(mask)
 	defer restore()
